@@ -3,6 +3,7 @@ import OcppModel.ServerDisp
 import OcppModel.ServerSpec
 import OcppModel.DispSpec
 import OcppModel.Endpoint
+import OcppModel.Respond
 
 /-! Line-protocol driver for suite `cdisp` (ocppj client + default dispatcher at quiescence). -/
 namespace Ocpp.Drv
@@ -196,5 +197,39 @@ def stepL3C (st : L3.CSt) (f : List String) : L3.CSt × String :=
     match parseEv f with
     | none => (st, "bad-op")
     | some e => let (s, o) := L3.cstep st e; (s, canonDels o)
+
+end Ocpp.Drv
+
+namespace Ocpp.Drv
+open Ocpp.Resp
+
+def flagOf (s : String) : Bool := s.endsWith "=1"
+
+/-- suite `c03`: `a <ver> <role> <feature> known= handler= insw= write= <outcome> [arg]` -/
+def stepC03 (f : List String) : String :=
+  match f with
+  | kind :: ver :: _role :: _feature :: known :: handler :: insw :: write :: outcome :: rest =>
+    if kind != "a" && kind != "b" then "bad-op" else
+    let cfg : Cfg := { dialect := if ver == "R16" then .v16 else .v2, known := flagOf known, handlerSet := flagOf handler,
+                       inSwitch := flagOf insw, writeOk := flagOf write }
+    let arg := (rest.headD "").replace "_" " "
+    let out? : Option Outcome := match outcome with
+      | "valid" => some .valid
+      | "invalid" => some (.invalid arg)
+      | "nil" => some .nilResp
+      | "error" => some .plainError
+      | "ocpperr" => some (.ocppError arg)
+      | _ => none
+    match out? with
+    | none => "bad-op"
+    | some out =>
+      let (rs, ran) := answer cfg out
+      let r := match rs with
+        | [] => "none"
+        | [.result] => "result"
+        | [.error c] => "error:" ++ c.replace " " "_"
+        | l => s!"many:{l.length}"
+      s!"{r} ran={if ran then 1 else 0} id={if rs.isEmpty then "-" else "ok"}"
+  | _ => "bad-op"
 
 end Ocpp.Drv
